@@ -71,9 +71,9 @@ func c09Funcs() []string {
 	return out
 }
 
-var c09Receivers = []string{`"abc"`, `"é"`, `""`, "[1, 2, 3]", "[]", "5", "(-5)", "0", "2.5", "0.0", "true", "nil", "{a: 1}", "s", "is", "st", "npi", "min", `"12"`, `"日本語"`}
+var c09Receivers = []string{`"abc"`, `"é"`, `""`, "[1, 2, 3]", "[]", "5", "(-5)", "0", "2.5", "0.0", "true", "nil", "{a: 1}", "s", "is", "st", "npi", "min", `"12"`, `"日本語"`, "[3, [1, 2]]", `[{a: 1}, 2, "a"]`, "[nil, [1], {}]"}
 
-var c09Args = []string{"min", "(-2)", "(-1)", "0", "1", "2", "3", "4", "1048576", "max", "0.5", `""`, `"a"`, `"é"`, "true", "nil", "[]", "{}", "zz"}
+var c09Args = []string{"min", "(-2)", "(-1)", "0", "1", "2", "3", "4", "1048576", "max", "0.5", `""`, `"a"`, `"é"`, "true", "nil", "[]", "{}", "zz", "[1, 2]", "{a: 1}"}
 
 // positions: the construct sits on line 2
 var c09Positions = []struct{ name, pre, post string }{
@@ -108,6 +108,9 @@ var c09Positions = []struct{ name, pre, post string }{
 	{"dump-second", "\n@dump(1, ", ")"},
 	{"nested-index", "\n{{ as[is[", "]] }}"},
 	{"postfix-then-dot", "\n{{ (", ")++.k }}"},
+	// the construct sits on line 2 because a comment before it spans two lines
+	{"print-after-comment", "{{-- c\nc --}}{{ ", " }}"},
+	{"if-after-comment", "a{{--\n--}}@if(", ")x@end"},
 }
 
 func c09Run(c *Ctx) {
@@ -217,10 +220,7 @@ func c09Run(c *Ctx) {
 				continue
 			}
 			call := func(args string, hasMax bool) bool {
-				if hasMax && (fn == "repeat" || fn == "decimal") {
-					c.Count("skipped_result_over_64MiB", 1)
-					return true
-				}
+				_ = hasMax // counts of 2^63-1 are run too: an oversized count is an error (or a defined result), not a crash
 				return inAll(r+"."+fn+"("+args+")", 1, []int{0})
 			}
 			if !call("", false) {
@@ -291,7 +291,7 @@ func init() {
 			return map[string]any{"atoms": len(c09Atoms), "depth2_atoms": c09Reduced, "positions": len(c09Positions), "builtin_arg_tuple_len": 2, "functions": len(c09Funcs()), "receivers": len(c09Receivers), "arg_values": len(c09Args)}
 		},
 		Assume: []string{
-			"repeat/decimal with the count 2^63-1 are skipped (their defined result would exceed 64 MiB: resource exhaustion, not interpreter behaviour)",
+			"count arguments are 2^20 and 2^63-1: counts in between (results of gigabytes) are not run, they would exhaust the sandbox's memory rather than probe the interpreter",
 			"loops without a condition carry a @break, so every generated program terminates by construction",
 		},
 		Run: c09Run,
